@@ -605,11 +605,15 @@ pub struct Ref {
     /// the envelope of every reordering / regrouping of the conjunctions (the model of the open
     /// C01 finding 'negated-structure')
     pub order_free: bool,
+    /// condition-level quantifiers may count their operands per FIELD instead of per entry (the
+    /// optimiser merges the searches of one field into one child): the result is the union of
+    /// both countings (the model of the open C01 finding 'condition-quantifier')
+    pub group_quant: bool,
 }
 
 impl Default for Ref {
     fn default() -> Self {
-        Ref { icase_build: false, order_free: false }
+        Ref { icase_build: false, order_free: false, group_quant: false }
     }
 }
 
@@ -825,6 +829,66 @@ impl Ref {
         }
     }
 
+    /// Operand vectors a condition-level quantifier over `i` may end up counting once the
+    /// optimiser has collapsed single-child groups and merged the searches of one field: the
+    /// operands as written; the entries of the only item of a one-item sequence; the members of
+    /// the list of an only entry; each of these also with the operands on one field merged into
+    /// one disjunction. None = some addressed field holds an array (merged searches then count
+    /// within one element): no envelope.
+    pub fn quant_candidates(&self, i: &Ident, doc: &DVal) -> Option<Vec<Vec<TS>>> {
+        fn group(ops: Vec<(Option<String>, TS)>) -> Vec<TS> {
+            let mut groups: Vec<(Option<String>, Vec<TS>)> = vec![];
+            for (f, s) in ops {
+                match groups.iter_mut().find(|(g, _)| f.is_some() && *g == f) {
+                    Some((_, v)) => v.push(s),
+                    None => groups.push((f, vec![s])),
+                }
+            }
+            groups.iter().map(|(_, v)| if v.len() == 1 { v[0] } else { or3(v) }).collect()
+        }
+        let mut levels: Vec<Vec<(Option<String>, TS)>> = vec![];
+        let entries_level = |es: &Entries| -> Vec<(Option<String>, TS)> { es.iter().map(|(k, v)| (Some(k.field.clone()), self.eval_entry(k, v, doc))).collect() };
+        let mut only_entries: Option<&Entries> = None;
+        match i {
+            Ident::Map(es) => {
+                levels.push(entries_level(es));
+                only_entries = Some(es);
+            }
+            Ident::Seq(ms) => {
+                levels.push(ms.iter().map(|es| (if es.len() == 1 { Some(es[0].0.field.clone()) } else { None }, self.eval_entries(es, doc))).collect());
+                if ms.len() == 1 {
+                    levels.push(entries_level(&ms[0]));
+                    only_entries = Some(&ms[0]);
+                }
+            }
+        }
+        if let Some(es) = only_entries {
+            if es.len() == 1 {
+                if let (k, RVal::List(members)) = (&es[0].0, &es[0].1) {
+                    if matches!(k.modi, KMod::None | KMod::Int | KMod::Flt | KMod::Str) && crate::dval::parse_path(&k.field).is_some() {
+                        let fv = lookup(doc, &k.field);
+                        levels.push(members.iter().map(|m| (Some(k.field.clone()), self.eval_scalar(&k.field, &k.modi, m, doc, fv))).collect());
+                    }
+                }
+            }
+        }
+        // arrays under any addressed top-level field
+        let mut fields: Vec<&str> = vec![];
+        match i {
+            Ident::Map(es) => fields.extend(es.iter().map(|(k, _)| k.field.as_str())),
+            Ident::Seq(ms) => ms.iter().for_each(|es| fields.extend(es.iter().map(|(k, _)| k.field.as_str()))),
+        }
+        if fields.iter().any(|f| matches!(lookup(doc, f), Some(DVal::Arr(_)))) {
+            return None;
+        }
+        let mut out = vec![];
+        for l in levels {
+            out.push(l.iter().map(|(_, s)| *s).collect());
+            out.push(group(l));
+        }
+        Some(out)
+    }
+
     /// `all(X)` / `of(X, n)` where X is a mapping with a single entry whose value is a list: the
     /// texts do not say whether the entry or the list's members are counted (DESIGN Appendix A).
     pub fn quantifier_shape_open(i: &Ident) -> bool {
@@ -853,12 +917,32 @@ impl Ref {
             Cond::Paren(a) => self.eval_cond(rule, a, doc),
             Cond::All(x) => match rule.ident(x) {
                 Some(i) if Self::quantifier_shape_open(i) => ANY,
-                Some(i) => all3(&self.ident_operands(i, doc)),
+                Some(i) => {
+                    let per_entry = all3(&self.ident_operands(i, doc));
+                    if self.group_quant {
+                        match self.quant_candidates(i, doc) {
+                            Some(cs) => cs.iter().fold(per_entry, |acc, c| acc | all3(c)),
+                            None => ANY,
+                        }
+                    } else {
+                        per_entry
+                    }
+                }
                 None => ANY,
             },
             Cond::Of(x, n) => match rule.ident(x) {
                 Some(i) if Self::quantifier_shape_open(i) => ANY,
-                Some(i) => of3(&self.ident_operands(i, doc), *n),
+                Some(i) => {
+                    let per_entry = of3(&self.ident_operands(i, doc), *n);
+                    if self.group_quant {
+                        match self.quant_candidates(i, doc) {
+                            Some(cs) => cs.iter().fold(per_entry, |acc, c| acc | of3(c, *n)),
+                            None => ANY,
+                        }
+                    } else {
+                        per_entry
+                    }
+                }
                 None => ANY,
             },
             Cond::Cmp(l, op, r) => {
